@@ -9,7 +9,8 @@ Under contract (real text on the real numpy; node coordinates / k-points SYMBOLI
         pos(i) = sum_{j<i} (1 if j is a break else factor) with its label / break flag, the points in between subdivide the segment uniformly.
   grid/path.py::Path.get_K_list    the batches concatenate to the k-point list, each point once, in order, for every batch size.
   grid/path.py::Path.getKline      (concrete paths) starts at 0, increments are the Cartesian segment lengths, zero across breaks: non-decreasing.
-  result/tabresult.py::TABresult.self_to_path   path order with each point's own values: proved in C12 (every collection order).
+  result/tabresult.py::TABresult.self_to_path   path order with each point's own values: the unit of C12 (every collection order of
+                                                 3 and 4 path points) is registered here as well.
 """
 import itertools
 import warnings
@@ -213,3 +214,10 @@ def _kline(U):
                     bad.append((n, br, "thresh"))
         U.ensure("path coordinate starts at 0, grows by the Cartesian segment length, by 0 across breaks (and across jumps above break_thresh): non-decreasing", not bad)
     U.run(body, check_feasible=False)
+
+
+# ------------------------------------------------------------------ re-ordering of collected results to the path (shared with C12)
+from contracts import C12 as _c12      # noqa: E402
+
+for _n in (3, 4):
+    _c12._path_unit(_n, prop="C29")
